@@ -25,7 +25,7 @@ using std::vector;
 static vp::Result R;
 static World* W = nullptr;
 static string g_errFile;
-static const unsigned BUDGET_S = 10;
+static unsigned BUDGET_S = 10;  // alarm() budget per case in seconds (--budget)
 
 static const char* DEFS =
   "# type,circuit,name,comment,qq,zz,pbsb,id,fields...\n"
@@ -289,7 +289,12 @@ static const char* TCP_TOKENS[] = {
   "\"\"", "99999999999999999999", "-", "r,x,x,,,08,b509,0d05,,,UCH", "result",
 };
 static const size_t N_TCP = sizeof(TCP_TOKENS) / sizeof(TCP_TOKENS[0]);
-static const size_t N_TCP_COMMANDS = 22;  // the leading entries of TCP_TOKENS are the command words
+// commands whose usage text (mainloop.cpp) admits three or more arguments: only these get 4-token lines
+static bool takesThreeArgs(size_t tok) {
+  static const char* cmds[] = {"read", "write", "find", "listen", "hex", "answer", "define", "decode", "encode", "grab"};
+  for (const char* c : cmds) if (strcmp(c, TCP_TOKENS[tok]) == 0) return true;
+  return false;
+}
 static const char* HTTP_TOKENS[] = {
   "/", "/data", "/data/main/temp", "/data/x/x", "?", "&", "since=1", "poll=9", "maxage=0", "required&write&def&full",
   "define=r,x,x,,,08,b509,0d05,v,,UCH", "user=u&secret=s", "/decode", "def=UCH", "raw=2a", "/raw", "/templates",
@@ -309,12 +314,13 @@ static const Frame FRAMES[] = {
   {"T2", "tmpl", "t,{0},{1},,,n2,{2},{3}", 4, false},                           // two-field template: type/div each
   {"M1", "msg", "{0},{1},{2},,,08,b509,0d05,v,,UCH", 3, false},                 // type,circuit,name
   {"M2", "msg", "r,x,x,,{0},{1},{2},{3},v,,UCH", 4, false},                     // qq,zz,pbsb,id
-  {"M3", "msg", "r,x,x,,,08,b509,0d05,{0},{1},{2},{3}", 4, true},               // field name,part,type,divisor/values
+  {"M3", "msg", "r,x,x,,,08,b509,0d05,{0},{1},{2},{3}", 4, false},              // field name,part,type,divisor/values
   {"M4", "msg", "w,x,x,,,08,b509,0d05,v,,{0},{1},,,w,,{2},{3}", 4, false},      // write message, two fields: type/div each
   {"M5", "msg", "{0},{1},{2},{3}", 4, false},                                   // raw line start (defaults, conditions, instructions)
+  {"M6", "msg", "r,x,x,,,08,b509,0d05,v,{0},{1},{2}", 3, true},                 // part,type,divisor/values
   {"DF", "tcp", "define \"r,x,x,,,08,b509,0d05,{0},{1},{2},{3}\"", 4, false},  // define command
   {"DE", "tcp", "decode {0},{1},,,{2},{3} 0102030405060708", 4, true},          // decode command: two fields type/div
-  {"EN", "tcp", "encode {0},{1} {2}", 3, false},                                // encode command: type/div value
+  {"EN", "tcp", "encode {0},{1} {2}", 3, true},                                 // encode command: type/div value
 };
 static const size_t N_FRAMES = sizeof(FRAMES) / sizeof(FRAMES[0]);
 
@@ -416,6 +422,7 @@ static int replay(const string& cs) {
 int main(int argc, char** argv) {
   setenv("TZ", "UTC", 1);
   vp::Args A = vp::parseArgs(argc, argv);
+  BUDGET_S = static_cast<unsigned>(A.getInt("budget", 10));
   setup();
   // pristine probe answers: from a fresh world that received no input at all
   {
@@ -445,6 +452,20 @@ int main(int argc, char** argv) {
     for (int i = 0; i < 300; i++) { MessageMap* m = new MessageMap(false, "", false); std::istringstream defs(DEFS); string e; time_t now = g_now; m->readFromStream(&defs, "defs.csv", now, false, nullptr, &e); delete m; }
     t2 = vp::rawNow();
     fprintf(stderr, "mainloop new+delete (with acl file write) %.3f ms, messagemap load %.3f ms\n", (t1 - t0) / 300 * 1e3, (t2 - t1) / 300 * 1e3);
+    {
+      double a = vp::rawNow();
+      for (int i = 0; i < 300; i++) { ebus_protocol_config_t pc; memset(&pc, 0, sizeof(pc)); pc.device = "fake"; pc.ownAddress = 0x31; FakeProtocol* fp = new FakeProtocol(pc, new FakeDevice(), W->busHandler); delete fp; }
+      double b = vp::rawNow();
+      for (int i = 0; i < 300; i++) { MainLoop* ml = new MainLoop(W->opt, W->busHandler, W->messages, W->scanHelper, W->queue); delete ml; }
+      double c = vp::rawNow();
+      for (int i = 0; i < 300; i++) { W->scanHelper->executeInstructions(W->busHandler); }
+      double d = vp::rawNow();
+      for (int i = 0; i < 300; i++) { HttpClient* h = new HttpClient(); delete h; }
+      double e = vp::rawNow();
+      for (int i = 0; i < 300; i++) { MessageMap* m = new MessageMap(true, "", false); delete m; }
+      double f = vp::rawNow();
+      fprintf(stderr, "FakeProtocol %.3f ms, MainLoop %.3f ms, executeInstructions %.3f ms, HttpClient %.3f, MessageMap(addAll) %.3f\n", (b - a) / 300 * 1e3, (c - b) / 300 * 1e3, (d - c) / 300 * 1e3, (e - d) / 300 * 1e3, (f - e) / 300 * 1e3);
+    }
     const char* lines[] = {"read -h 08b5090", "help", "find -l", "/datatypes", "/templates", "/data"};
     for (const char* l : lines) {
       t0 = vp::rawNow();
@@ -464,12 +485,12 @@ int main(int argc, char** argv) {
   bool th = A.thorough();
   string only = A.get("only", "");
   size_t tcpLen = A.getInt("tcplen", th ? 4 : 3), dirLen = A.getInt("dirlen", th ? 3 : 2);
-  size_t httpLen = A.getInt("httplen", th ? 4 : 3), holes = A.getInt("holes", th ? 4 : 3);
+  size_t httpLen = A.getInt("httplen", th ? 4 : 3), holes = A.getInt("holes", 0);
   g_batch = A.getInt("batch", 48);
 
   if (only.empty() || only == "tcp") {
     forSequences(N_TCP, tcpLen, [&](const vector<size_t>& s) {
-      if (s.size() > 3 && s[0] >= N_TCP_COMMANDS) return;  // lines of >3 tokens: only those that start with a command word
+      if (s.size() > 3 && !takesThreeArgs(s[0])) return;  // lines of >3 tokens: only for commands whose usage admits >=3 arguments
       string line;
       for (size_t i = 0; i < s.size(); i++) line += (i ? " " : "") + string(TCP_TOKENS[s[i]]);
       Case c{"tcp", line};
@@ -497,7 +518,8 @@ int main(int argc, char** argv) {
   if (only.empty() || only == "csv") {
     for (size_t fi = 0; fi < N_FRAMES; fi++) {
       const Frame& f = FRAMES[fi];
-      size_t k = std::min<size_t>(f.deep ? holes : holes - 1, f.holes);
+      // quick: 3 holes for the frames marked deep, 2 for the others; thorough: 3 holes for all
+      size_t k = std::min<size_t>(holes ? holes : (th || f.deep ? 3 : 2), f.holes);
       // assignments to the first k holes (remaining holes empty); shorter assignments are the
       // ones with trailing empty tokens, so only full-length sequences are enumerated
       forSequences(N_CSV, k, [&](const vector<size_t>& s) {
@@ -508,7 +530,7 @@ int main(int argc, char** argv) {
     }
     flushBatch();
     R.sample("csv: e.g. template line <x,HEX:40,0=a;1=b,s>, message line <r,x,x,,,08,b509,0d05,x,m,BI7:2,10>, <define \"r,x,x,,,08,b509,0d05,x,s,STR:17,\"> -> every assignment of " +
-             std::to_string(N_CSV) + " column tokens to <=" + std::to_string(holes) + " holes of " + std::to_string(N_FRAMES) + " line frames");
+             std::to_string(N_CSV) + " column tokens to " + (th ? "3" : "2-3") + " holes of " + std::to_string(N_FRAMES) + " line frames");
   }
   flushBatch();
   R.note("pristine probe: " + g_pristine);
